@@ -257,7 +257,24 @@ def pair_verdict(a, t):
         ws = member.inhabitants(member.from_rt(eval(a[6:-1], NS)), 10)
         vs = [member.mem(w, ty(t)) for w in ws]
         return False if any(v is False for v in vs) else (None if any(v is None for v in vs) or not vs else True)
-    return member.mem(eval(a, NS), ty(t))
+    v = member.mem(eval(a, NS), ty(t))
+    if v is False and a.startswith(GENERIC_CTORS):
+        # `Fwd({1: "a"})` is a call, typed Fwd[Any, Any]: its type arguments are not statically known.  When the
+        # class itself fits (an empty instance, or one built from an inhabitant of the type, is a member) the content decides, and the property makes no claim.
+        cls = NS[a.split("(")[0]]
+        contents = [()] + [(o,) for o in member.inhabitants(ty(t), 8) if isinstance(o, (dict, list))]
+        for args in contents:
+            try:
+                other = cls(*args)
+            except Exception:
+                continue
+            if member.mem(other, ty(t)) is not False:
+                return None
+    return v
+
+
+# constructor calls of generic classes of the vocabulary: pyanalyze types them `Cls[Any, ...]`
+GENERIC_CTORS = ("Fwd(", "LS(", "Rev(", "IntKeyed(", "G(")
 
 
 def judge(items, checker, col=None):
